@@ -3,6 +3,8 @@ import PnVerif.Model.HeaderText
   C04 correspondence driver.  One request per line on stdin, one answer per line on stdout.
 
     ENC <schema>            -> <hex of Header.encodeRaw> <Hdr.len> <offset of dim tag> <gatt tag> <var tag>
+    VARIANT <0|1>           -> 1: the tree carries the repair of finding FB2-1 (compute_var_shape sets begin_var =
+                               begin_rec = xsz when there is no variable); answers VARIANT <0|1>.  Default 0.
     FILE <hexfile>          -> sets the current file; answers  FILE <length>
     DEC <chunk>             -> decodeChunked chunk of the current file:
                                    OK <schema, vsize := recomputed len> | xsz beginVar beginRec recsize numRecVars
@@ -21,7 +23,7 @@ def showDecoded (r : Except Err (Hdr × Info)) : String :=
     let h' : Hdr := { h with vars := (h.vars.zip info.lens).map (fun (v, l) => { v with vsize := l }) }
     s!"OK {showSchema h'} | {info.xsz} {info.beginVar} {info.beginRec} {info.recsize} {info.numRecVars}"
 
-def step (file : Bytes) (line : String) : String :=
+def step (fixed : Bool) (file : Bytes) (line : String) : String :=
   match tokens line.trimAscii.toString with
   | "ENC" :: ts =>
     match tSchema ts with
@@ -33,9 +35,9 @@ def step (file : Bytes) (line : String) : String :=
       s!"{toHex (encodeRaw h)} {Hdr.len h} {o1} {o2} {o3}"
     | _ => "bad-schema"
   | ["DEC", c] =>
-    if c == "W" then showDecoded (decodeWhole file)
+    if c == "W" then showDecoded (decodeWholeV fixed file)
     else match c.toNat? with
-      | some chunk => showDecoded (decodeChunked chunk file)
+      | some chunk => showDecoded (decodeChunkedV fixed chunk file)
       | none => "bad-chunk"
   | ["SPEC"] =>
     match specDecode file with
@@ -43,18 +45,20 @@ def step (file : Bytes) (line : String) : String :=
     | none => "NONE"
   | _ => "bad-op"
 
-partial def loop (h : IO.FS.Stream) (out : IO.FS.Stream) (file : Bytes) : IO Unit := do
+partial def loop (h : IO.FS.Stream) (out : IO.FS.Stream) (fixed : Bool) (file : Bytes) : IO Unit := do
   let line ← h.getLine
   if line.isEmpty then return ()
   match tokens line.trimAscii.toString with
   | ["FILE", hex] =>
     match ofHex hex with
-    | some f => out.putStrLn s!"FILE {f.length}"; loop h out f
-    | none => out.putStrLn "bad-hex"; loop h out file
+    | some f => out.putStrLn s!"FILE {f.length}"; loop h out fixed f
+    | none => out.putStrLn "bad-hex"; loop h out fixed file
+  | ["VARIANT", v] =>
+    out.putStrLn s!"VARIANT {v}"; loop h out (v == "1") file
   | _ =>
-    out.putStrLn (step file line)
-    loop h out file
+    out.putStrLn (step fixed file line)
+    loop h out fixed file
 
 def main : IO Unit := do
   let out ← IO.getStdout
-  loop (← IO.getStdin) out []
+  loop (← IO.getStdin) out false []
